@@ -47,15 +47,15 @@ type c13Case struct {
 	Early bool `json:"early,omitempty"`
 	// DuplexHandler: the bidi handler answers each request from a second
 	// goroutine while its main loop is already receiving the next one.
-	DuplexHandler bool  `json:"duplex_handler,omitempty"`
+	DuplexHandler bool `json:"duplex_handler,omitempty"`
 	// RecvFirst (one bidi stream): the receiver goroutine starts on its own, not
 	// after the sender's first Send, and the sender fills in the request headers
 	// just before that Send ("headers are sent with the first call to Send").
-	RecvFirst bool `json:"recv_first,omitempty"`
-	Bound         int   `json:"bound"`
-	Sub           int   `json:"sub"`  // sub-shard of the root's children
-	Subs          int   `json:"subs"` //
-	Prefix        []int `json:"prefix,omitempty"`
+	RecvFirst bool  `json:"recv_first,omitempty"`
+	Bound     int   `json:"bound"`
+	Sub       int   `json:"sub"`  // sub-shard of the root's children
+	Subs      int   `json:"subs"` //
+	Prefix    []int `json:"prefix,omitempty"`
 }
 
 func (k c13Case) key() string {
